@@ -23,11 +23,13 @@ JudgeRtOne(c, P, k) ==
       expected == IF nrm.ok THEN nrm.v ELSE dec.v
   IN IF ~conf THEN << Cl("H.conforms", "fail") >>
      ELSE IF ~w.ok THEN << Cl("C02.bytes", "fail"), Cl("C01.value", "fail") >>
+     ELSE IF ~enc.ok /\ enc.why = "unspec" /\ "amb" \in DOMAIN enc /\ enc.amb = "bytes-array"
+          THEN << Cl("C02.bytes", "unspec"), Cl("C09.index", "unspec"), Cl("C01.value", "unspec") >>
      ELSE << Tri("C02.bytes", MatchCanon(t, d, w.bytes, names, o)),
              IF enc.ok THEN Tri("C09.index", enc.b = w.bytes)
              ELSE IF enc.why = "unspec" THEN Cl("C09.index", "unspec") ELSE Cl("S.encode", "fail"),
              \* the spec's own decoder must agree with the spec's normal form (self-consistency of the spec)
-             IF dec.st = "ok" /\ nrm.ok THEN Tri("S.selfdec", VEq(dec.v, nrm.v) /\ dec.p = Len(w.bytes) + 1)
+             IF dec.st = "ok" /\ nrm.ok /\ enc.ok /\ enc.b = w.bytes THEN Tri("S.selfdec", VEq(dec.v, nrm.v) /\ dec.p = Len(w.bytes) + 1)
              ELSE Cl("S.selfdec", "skip"),
              IF ~nrm.ok /\ dec.st # "ok" THEN Cl("C01.value", "unspec")
              ELSE Tri("C01.value", r.ok /\ VEq(r.v, expected)),
@@ -36,6 +38,7 @@ JudgeRtOne(c, P, k) ==
 Judge_sl_rt(c) ==
   LET P == Parse(c.schema) IN
   IF ~P.ok THEN << Cl("H.schema", "fail") >>
+  ELSE IF "perr" \in DOMAIN c THEN << Cl("C11.accept", "fail") >>     \* fastavro rejected a schema the spec accepts
   ELSE IF \E k \in 1..Len(c.writes) : ~c.writes[k].ok
        THEN LET k == CHOOSE k \in 1..Len(c.writes) : ~c.writes[k].ok IN
             IF Conforms(P.t, c.data[k], P.st.names, OptsOf(c))
